@@ -316,6 +316,7 @@ func (s *Writer) prepareSegment(newSegment *segmentWrapper, idTerms []segment.Te
 		introduction.obsoletes[seg.id] = delta
 	}
 
+	verifHook("batch.prepared", s, introduction.id, root)
 	introStartTime := time.Now()
 
 	s.introductions <- introduction
